@@ -226,7 +226,10 @@ class Foreign:
 
 
 class Opaque:
-    """opaque result nobody may look into (e.g. result of a logging call)"""
+    """opaque result nobody may look into (e.g. result of a logging call, a regex match object)"""
+
+    def __init__(self, truthy=None):
+        self.truthy = truthy
 
 
 # ----------------------------------------------------------------------------------------------- kinds
